@@ -209,7 +209,7 @@ def det_classes():
   out += [("NormalQueueRTL3", lambda: Q.NormalQueueRTL(Bits8, 3)), ("PipeQueueRTL2", lambda: Q.PipeQueueRTL(Bits8, 2)), ("BypassQueueRTL2", lambda: Q.BypassQueueRTL(Bits4, 2)),
           ("StreamNormalQueue2", lambda: SQ.NormalQueueRTL(Bits8, 2)), ("RoundRobinArbiter4", lambda: A.RoundRobinArbiter(4)), ("RoundRobinArbiterEn3", lambda: A.RoundRobinArbiterEn(3)),
           ("RegisterFile", lambda: RegisterFile(Bits8, 4, 2, 1))]
-  out += [("FnParam", lambda: D.FnParam(D.double)), ("ObjParam", lambda: D.ObjParam(D.PlainCfg(3)))]
+  out += [("FnParam", lambda: D.FnParam(D.double)), ("ObjParam", lambda: D.ObjParam(D.PlainCfg(3))), ("ConstStructs", D.ConstStructs), ("ConstLists", D.ConstLists)]
   cat = D.catalogue()
   pick = [0, 1, 4, 5, 10, 14, 20, 23, 25, 27, 31, 35, 37]
   for i, j in zip(pick, pick[1:] + pick[:1]):
